@@ -499,7 +499,11 @@ struct Ex<'a> {
     hints: HashMap<Vec<u64>, Vec<u64>>,
     /// child prefixes that must be explored themselves (never merged with a sibling)
     nomerge: std::collections::HashSet<Vec<u64>>,
+    /// nodes explored for this row since the last reset / limit (only enforced for truncated kernels)
+    row_nodes: u64,
+    row_limit: u64,
 }
+const ROW_BUDGET_MSG: &str = "row node budget";
 
 struct Counterexample {
     words: Vec<u64>,
@@ -666,6 +670,10 @@ impl<'a> Ex<'a> {
 
     fn explore_inner(&mut self, pre: &mut Vec<u64>, w: f64) -> Result<Rc<Tree>, String> {
         self.ct.nodes += 1;
+        self.row_nodes += 1;
+        if self.row_nodes > self.row_limit {
+            return Err(ROW_BUDGET_MSG.to_string());
+        }
         let base0 = self.obs(pre);
         let d = pre.len();
         if (base0.cons as usize) == d {
@@ -1248,23 +1256,44 @@ fn measure(sys: &dyn Sys, intern: &mut Interner, max_cfgs: usize, mc: u64, seed:
     while let Some(id) = queue.pop_front() {
         let cfg = intern.cfgs[id as usize].clone();
         for (k, spec) in ks.iter().enumerate() {
-            let mut ex = Ex { sys, cfg: cfg.clone(), k, intern, cache: &mut cache, ct: &mut ct, eps: spec.eps, trunc: 0.0, maxdepth: if spec.eps > 0.0 { 400 } else { 96 }, budget: 100_000, memo: HashMap::new(), validated: Default::default(), hints: HashMap::new(), nomerge: Default::default() };
-            let mut rounds = 0;
-            let tree = loop {
-                let tree = ex.explore(&mut vec![], 1.0).map_err(|e| format!("kernel {} from {}: {}", spec.name, cfg.show(), e))?;
-                match ex.mc_validate(&tree, mc, seed ^ (id as u64) << 8 ^ k as u64) {
-                    Ok(()) => break tree,
-                    Err((why, None)) => return Err(format!("kernel {} from {}: {}", spec.name, cfg.show(), why)),
-                    Err((why, Some(cx))) => {
-                        rounds += 1;
-                        if rounds > 400 {
-                            return Err(format!("kernel {} from {}: no consistent draw tree after 400 refinements ({})", spec.name, cfg.show(), why));
+            let mut ex = Ex { sys, cfg: cfg.clone(), k, intern, cache: &mut cache, ct: &mut ct, eps: spec.eps, trunc: 0.0, maxdepth: if spec.eps > 0.0 { 400 } else { 96 }, budget: 20_000, memo: HashMap::new(), validated: Default::default(), hints: HashMap::new(), nomerge: Default::default(), row_nodes: 0, row_limit: u64::MAX };
+            // truncated kernels (loops): refine the truncation threshold as far as a node budget allows
+            let sched: Vec<f64> = if spec.eps > 0.0 { [1e-3, 1e-5, 1e-7, 1e-9, 1e-11].iter().cloned().filter(|e| *e >= spec.eps).collect() } else { vec![0.0] };
+            let mut best: Option<Rc<Tree>> = None;
+            for e in sched {
+                ex.eps = e;
+                ex.memo.clear();
+                ex.validated.clear();
+                ex.row_nodes = 0;
+                ex.row_limit = if spec.eps > 0.0 { 6000 } else { u64::MAX };
+                let mut rounds = 0;
+                let res: Result<Rc<Tree>, String> = loop {
+                    let tree = match ex.explore(&mut vec![], 1.0) {
+                        Ok(t) => t,
+                        Err(e) => break Err(e),
+                    };
+                    match ex.mc_validate(&tree, mc, seed ^ (id as u64) << 8 ^ k as u64) {
+                        Ok(()) => break Ok(tree),
+                        Err((why, None)) => break Err(why),
+                        Err((why, Some(cx))) => {
+                            rounds += 1;
+                            if rounds > 400 {
+                                break Err(format!("no consistent draw tree after 400 refinements ({})", why));
+                            }
+                            if let Err(e) = ex.refine(&tree, &cx) {
+                                break Err(format!("{} / {}", why, e));
+                            }
+                            ex.ct.refinements += 1;
                         }
-                        ex.refine(&tree, &cx).map_err(|e| format!("kernel {} from {}: {} / {}", spec.name, cfg.show(), why, e))?;
-                        ex.ct.refinements += 1;
                     }
+                };
+                match res {
+                    Ok(t) => best = Some(t),
+                    Err(e) if e.contains(ROW_BUDGET_MSG) && best.is_some() => break,
+                    Err(e) => return Err(format!("kernel {} from {}: {}", spec.name, cfg.show(), e)),
                 }
-            };
+            }
+            let tree = best.unwrap();
             let tr = trunc_of(&tree, 1.0);
             let mut row = HashMap::new();
             row_of(&tree, 1.0, &intern.canon, &mut row);
@@ -1562,7 +1591,7 @@ fn generic_systems(thorough: bool) -> Vec<GenSys> {
     let k = |name: &'static str, db: bool, eps: f64| KSpec { name, db, compose: None, eps };
     let eps_env: Option<f64> = std::env::var("KERN_EPS").ok().and_then(|s| s.parse().ok());
     // one operator: the draw tree of a loop is a caterpillar, 1e-11 costs a few hundred nodes; more operators: heavy tails
-    let eps_for = |l: usize| eps_env.unwrap_or(if l == 1 { 1e-11 } else { 1e-3 });
+    let eps_for = |l: usize| eps_env.unwrap_or(if l >= 1 { 1e-11 } else { 1e-3 });
     // (1) exchange-type 2-site matrix with loop updates
     for l in if thorough { vec![1usize, 2, 3] } else { vec![1usize, 2] } {
         v.push(GenSys {
